@@ -200,6 +200,10 @@ def drive_shape(rec, s, units, fac=None, ids="fresh"):
         t = W9.build(s, fac)
         if ids == "clone":
             t = t.clone()
+        if ids in ("fresh", "same", "pool3"):
+            from ..workloads import copies as _CP
+
+            t = _CP.routed(t, "tree", every=9)
         if ids == "stale-parents":
             # the drawing follows the left/right links; parent pointers of some nodes point somewhere
             # else (None, the root, a node of another tree) as they do in the "before" node a rewrite
